@@ -90,8 +90,37 @@ pub fn run(cfg: &Cfg, rep: &mut Report) {
         // classes that compile to the general bracket instruction (non-ASCII / inverted), looked up
         // with different outcomes by different threads
         ("[α-ω]+", fl("")), ("[^a-y]+", fl("")), ("\\P{Lu}{2,}", fl("u")), ("[é-ü]*[^é-ü]", fl("i")), ("(?<=[α-ω])[Α-Ω]|[^α-ωΑ-Ω ]+", fl("")),
+        // match-time canonicalization over characters whose code points agree in their low 8 or 16
+        // bits (a memo or scratch table keyed on a truncated code point would confuse them)
+        ("(.)\\1", fl("iu")), ("(?<=(.)\\1)|(\\S)\\2", fl("i")), ("\\b.\\B", fl("iu")),
     ];
-    let hays: Vec<String> = vec!["aaaaab".into(), "aabbxx AAx".into(), "abcd abcbcd".into(), "the quick brown fox".into(), "aab".into(), "ababa".into(), "KKs \u{212A}\u{17F}".into(), "aé".into(), "xxxxxxxxxx".into(), "aaa\naaaa".into(), "".into(), "ééé".into(), "αβγδεζηθικλμνξοπρστυφχψω".into(), "ΑΒΓΔΕΖΗΘΙΚΛΜΝΞΟΠΡΣΤΥΦΧΨΩ".into(), "αΒγΔεΖηΘ zZ éÉüÜ".into(), "zzzzzzzzzzzzzzzzzzzzzzzzzzzzzzzz".into()];
+    // Patterns near the engine's structural limits (nesting depth, group and loop counts): any
+    // bookkeeping of those that is not per search shows up only when searches overlap.
+    let deep_ahead = format!("{}a{}", "(?=a".repeat(40), ")".repeat(40));
+    let deep_behind = format!("{}a{}b", "(?<=a".repeat(40), ")".repeat(40));
+    let deep_mixed = format!("{}a{}", "(?=a(?<=a".repeat(20), "))".repeat(20));
+    // (alternations, so that no haystack makes them backtrack exponentially)
+    let many_groups = (0..300).map(|i| format!("(a{}{})", (b'a' + (i % 26) as u8) as char, (b'a' + (i / 26) as u8) as char)).collect::<Vec<_>>().join("|");
+    let deep_groups = format!("{}a{}b", "(?:(".repeat(60), "))".repeat(60));
+    let many_loops = (2..200).map(|i| format!("a{{{}}}b", i)).collect::<Vec<_>>().join("|");
+    let mut pats = pats;
+    let heavy_from = pats.len();
+    if cfg.opt("small").is_some() {
+        // Miri: one pattern per process (16 processes)
+        pats.truncate(16);
+    } else {
+        for p in [&deep_ahead, &deep_behind, &deep_mixed, &many_groups, &deep_groups, &many_loops] {
+            pats.push((p.as_str(), fl("")));
+        }
+    }
+    let _ = heavy_from;
+    let hays: Vec<String> = vec!["aaaaab".into(), "aabbxx AAx".into(), "abcd abcbcd".into(), "the quick brown fox".into(), "aab".into(), "ababa".into(), "KKs \u{212A}\u{17F}".into(), "aé".into(), "xxxxxxxxxx".into(), "aaa\naaaa".into(), "".into(), "ééé".into(), "αβγδεζηθικλμνξοπρστυφχψω".into(), "ΑΒΓΔΕΖΗΘΙΚΛΜΝΞΟΠΡΣΤΥΦΧΨΩ".into(), "αΒγΔεΖηΘ zZ éÉüÜ".into(), "zzzzzzzzzzzzzzzzzzzzzzzzzzzzzzzz".into(),
+        // U+0428/0448 (Cyrillic sha) vs U+10428/10400 (Deseret): equal low 16 bits; a / U+0161 / U+0461: equal low 8 bits
+        "шШ 𐐨𐐀 ш𐐨 Ш𐐀".into(), "𐐨𐐀ш𐐨шШ".into(), "aA šŠ ѡѠ aš šѡ Aѡ".into(), "ѡѠaAšŠ".into(), "𐐀ш".into(), "шШ".into(), "𐐨𐐀".into(), "aaaab".into(), format!("{}b", "a".repeat(48))];
+    let mut hays = hays;
+    if cfg.opt("small").is_some() {
+        hays.truncate(19);
+    }
     let threads_list: Vec<usize> = if cfg.opt("small").is_some() { vec![2] } else { vec![2, 4, 16] };
     let n_queries = cfg.opt_usize("queries", if cfg.quick() { 400 } else { 4000 });
     let mut rng = Rng::new(cfg.seed ^ 0x19);
@@ -99,6 +128,11 @@ pub fn run(cfg: &Cfg, rep: &mut Report) {
     for (pi, (pat, flags)) in pats.iter().enumerate() {
         if !cfg.mine(pi as u64) {
             continue;
+        }
+        if let Some(r) = cfg.resume_after {
+            if pi as u64 + 1 <= r {
+                continue;
+            }
         }
         rep.begin(pi as u64 + 1, &J::obj().set("pattern", *pat).set("flags", flags.to_string()));
         let compile = || regress::Regex::from_unicode(pat.chars().map(|c| c as u32), engine::rflags(*flags, false)).expect("fixed pattern compiles");
@@ -209,6 +243,19 @@ pub fn run(cfg: &Cfg, rep: &mut Report) {
                 total_yield_schedules += 1;
             }
             rep.inc(&format!("thread_groups.{}", nthreads));
+        }
+        // after everything that ran in this process: each query alone on a fresh Regex once more
+        // (process-wide state that outlives a Regex would make this differ from the first pass)
+        for (i, q) in queries.iter().enumerate().rev() {
+            if cfg.opt("small").is_some() {
+                break; // compiling is the slow part under Miri, which is here for data races
+            }
+            let got = run_query(&compile(), &hays, q);
+            rep.inc("fresh_rechecks");
+            if got != expected[i] {
+                rep.violation(violation("C19", "a query alone on a freshly compiled Regex gives a different result after other searches ran in the process", J::obj().set("pattern", *pat).set("flags", flags.to_string()).set("query", format!("{:?}", q)).set("haystack", hays[q.hay].as_str()).set("check", "c19"), format!("{:x}", got), format!("{:x}", expected[i])));
+                break;
+            }
         }
         if rep.samples.len() < rep.max_samples {
             rep.sample(J::obj().set("pattern", *pat).set("flags", flags.to_string()).set("queries", queries.len()).set("thread_counts", J::Arr(threads_list.iter().map(|&t| J::from(t)).collect())).set("example_query", format!("{:?}", queries[0])));
